@@ -1044,15 +1044,15 @@ def main(listenip_v6, listenip_v4,
         for i in nslist:
             debug1("  "+str(i))
 
+    # keep track of failed bindings and used ports to avoid trying to
+    # bind to the same socket address twice in different listeners
+    used_ports = []
     if listenip_v6 and listenip_v6[1] and listenip_v4 and listenip_v4[1]:
         # if both ports given, no need to search for a spare port
         ports = [0, ]
     else:
         # if at least one port missing, we have to search
         ports = range(12300, 9000, -1)
-        # keep track of failed bindings and used ports to avoid trying to
-        # bind to the same socket address twice in different listeners
-        used_ports = []
 
     # search for free ports and try to bind
     last_e = None
